@@ -1,4 +1,5 @@
 import RsddModel.Lemmas.SddWmc
+import RsddModel.Lemmas.SddWFd
 import RsddModel.Props.C04
 import RsddModel.Props.C07Bdd
 /-!
@@ -21,10 +22,11 @@ variable is relevant to both prime and sub (decomposability).  It follows from `
 (`WFs_DD`), hence holds for every pool entry of a run of the compressing builder (`run_wmc`).
 Without either half the statement is false (`needs_partition`, `needs_decomposable`).
 
-Not covered: results of the canonical builder with compression switched *off*.  The invariant
-proved for that setting (`WF`, C03) records the partition property but not on which side of the
-vtree node the variables of primes and subs lie, so decomposability is not available from it;
-`evaluate_agrees` (which needs partitions only) does cover both settings (`run_evaluate`).
+Compression switched *off*: the invariant of C03 (`WF`) records the partition property but not
+on which side of the vtree node the variables of primes and subs lie.  `Lemmas/SddWFd.lean` proves
+that the uncompressed builder keeps `WFd` (`WF` + primes depend only on the left child's
+variables, subs only on the right child's — semantically), which gives `DD`: `run_wmc_any` covers
+both settings.
 -/
 namespace C07Sdd
 open Spec Sdd
@@ -96,6 +98,37 @@ theorem run_wmc (hS : S.Laws) (w : Weights α) (vt : VTree) (hnd : vt.leaves.Nod
     exact (wmc_wfs hS w hnd (hwf p hp) hw a).1
   · exact ⟨(wmc_wfs hS w hnd (hwf p hp) hw a).2.1, (wmc_wfs hS w hnd (hwf p hp) hw a).2.2⟩
 
+/-- pointers with semantic variable sides (`WFd`: what the uncompressed builder and the semantic
+builder maintain) -/
+theorem wmc_wfd (hS : S.Laws) (w : Weights α) {vt : VTree} (hnd : vt.leaves.Nodup) {p : Ptr}
+    (wp : SddSem.WFd vt p) (hw : Normalised S w vt.leaves) (a : Assign) :
+    wmc S w p = wsum S vt.leaves w (den p) a ∧ wmc S w p = wsumList S vt.leaves w (den p) a ∧
+    wmc S w p.neg = wsum S vt.leaves w (fNot (den p)) a :=
+  ⟨(wmc_sdd hS w (SddSem.WFd_DD hnd p wp) hnd (SddSem.WFd_vars p wp) hw a).1,
+   (wmc_sdd hS w (SddSem.WFd_DD hnd p wp) hnd (SddSem.WFd_vars p wp) hw a).2.1,
+   wmc_neg_dd hS w (SddSem.WFd_DD hnd p wp) (SddSem.WFd_vars p wp) hw a⟩
+
+/-- **every diagram the SDD builder returns, compression on or off** -/
+theorem run_wmc_any (hS : S.Laws) (w : Weights α) (cfg : Config) (hnd : cfg.vt.leaves.Nodup)
+    (fuel : Nat) (ops : List Op) (pool : List Ptr) (h : run cfg fuel ops = some pool)
+    (hw : Normalised S w cfg.vt.leaves) (a : Assign) :
+    ∃ fs, specRun cfg.vt [] ops = some fs ∧ fs.length = pool.length ∧
+      pool.map (wmc S w) = fs.map (fun f => wsum S cfg.vt.leaves w f a) ∧
+      ∀ p ∈ pool, wmc S w p = wsumList S cfg.vt.leaves w (den p) a ∧
+        wmc S w p.neg = wsum S cfg.vt.leaves w (fNot (den p)) a := by
+  obtain ⟨vt, c⟩ := cfg
+  have hs := (run_sound ⟨vt, c⟩ fuel ops pool h).1
+  have hwf : ∀ p ∈ pool, SddSem.WFd vt p := by
+    cases c
+    · exact run_wfd_uncompressed vt fuel ops pool h
+    · exact fun p hp => SddSem.WFs_WFd p (run_wfs vt hnd fuel ops pool h p hp)
+  refine ⟨pool.map den, hs, by simp, ?_, fun p hp => ?_⟩
+  · rw [List.map_map]
+    apply List.map_congr_left
+    intro p hp
+    exact (wmc_wfd hS w hnd (hwf p hp) hw a).1
+  · exact ⟨(wmc_wfd hS w hnd (hwf p hp) hw a).2.1, (wmc_wfd hS w hnd (hwf p hp) hw a).2.2⟩
+
 /-- **Clause 2.**  Boolean evaluation (`DDNNFPtr::evaluate`, the count in the Boolean semiring with
 weights `(!b, b)`) agrees with the denoted function on every SDD whose decision nodes are
 partitions -/
@@ -149,7 +182,7 @@ example : (run ⟨vtB, true⟩ 20 progB).map (fun pool => pool.map (wmc C07Bdd.i
     (specRun vtB [] progB).map (fun fs => fs.map fun f =>
       wsumList C07Bdd.intOps vtB.leaves exW f (fun _ => false)) := by decide +kernel
 
-/-- the same holds here for the uncompressed results (observed, not covered by `run_wmc`) -/
+/-- the uncompressed results (an instance of `run_wmc_any`), computed -/
 example : (run ⟨vtB, false⟩ 20 progB).map (fun pool => pool.map (wmc C07Bdd.intOps exW)) =
     (specRun vtB [] progB).map (fun fs => fs.map fun f =>
       wsumList C07Bdd.intOps vtB.leaves exW f (fun _ => false)) := by decide +kernel
@@ -166,7 +199,11 @@ end C07Sdd
 #print axioms C07Sdd.wmc_sdd_vtree_independent
 #print axioms C07Sdd.wmc_wfs
 #print axioms C07Sdd.run_wmc
+#print axioms C07Sdd.wmc_wfd
+#print axioms C07Sdd.run_wmc_any
 #print axioms C07Sdd.evaluate_agrees
 #print axioms C07Sdd.run_evaluate
 #print axioms C07Sdd.needs_partition
 #print axioms C07Sdd.needs_decomposable
+#print axioms C07Sdd.wfs_vars_leaves
+#print axioms C07Sdd.exW_norm
